@@ -271,7 +271,11 @@ func applyCustomerRates(doc billable) {
 	if doc.getCustomer() == nil || doc.getCustomer().TaxID == nil {
 		return
 	}
-	country := doc.getCustomer().TaxID.Country
+	// Use the country the customer's tax identity will carry once normalized:
+	// a regime may replace an alternative code ("GR") with its own ("EL").
+	id := *doc.getCustomer().TaxID
+	id.Normalize()
+	country := id.Country
 	for _, l := range doc.getLines() {
 		addCountryToTaxes(l.Taxes, country)
 	}
